@@ -716,8 +716,59 @@ def check_case(rng):
     return dict(kind="check", argv=argv, stdin=b"", files=allfiles, stdout=[("lit", out)], exit=code, failed=failed)
 
 
-def cases_for_c12(rng, n):
+def long_line_check_cases(rng):
+    """--check over checkfile lines far longer than any plausible line buffer (4 KiB .. 64 KiB+): an entry naming an existing file
+    through a long `./././name` path (plain, tagged, and escaped because the name holds backslashes), and entries whose path is longer
+    than PATH_MAX (one FAILED line, exit 1) built so that a reader cutting the line after T bytes would find a well-formed entry for an
+    existing, matching file in the remainder"""
     cases = []
+    good = b"b.txt"
+    bs_name = b"\\" * 150 + b"q"
+    files = {good: lcg_bytes(1025, rng.randrange(1 << 32)), bs_name: lcg_bytes(70, rng.randrange(1 << 32)), b"a.txt": b"a"}
+    hs = {nm: py_xof(("hash",), files[nm], 0, 32).hex() for nm in files}
+
+    def case(body, out, failed):
+        allfiles = dict(files)
+        allfiles[b"CHECK0"] = body
+        return dict(kind="check-long-line", argv=[b"--check", b"CHECK0"], stdin=b"", files=allfiles, stdout=[("lit", out)],
+                    exit=1 if failed else 0, failed=failed)
+    # existing files behind long paths (path length <= 4095)
+    for nm in (good, bs_name):
+        for tag in (False, True):
+            for plen in (4095, 4000, 3000):
+                k = (plen - len(nm)) // 2
+                path = b"./" * k + nm
+                line = py_format_line(tag, path, hs[nm])
+                fs, esc = py_filepath_to_string(py_lossy(path))
+                shown = (("\\" if esc else "") + fs).encode()
+                for eol in (b"\n", b"\r\n"):
+                    body = line.encode() + eol + py_format_line(False, good, hs[good]).encode() + b"\n"
+                    cases.append(case(body, shown + b": OK\n" + good + b": OK\n", 0))
+    # one entry whose path is too long for open(); cut after T bytes it would read as two entries, the second one valid and matching
+    for T in (4096, 4097, 4160, 4176, 4224, 4225, 8192, 16384, 65536, 65537):
+        for tag in (False, True):
+            tail = py_format_line(tag, good, hs[good]).encode()
+            head0 = (b"BLAKE3 (" if tag else (hs[b"a.txt"].encode() + b"  "))
+            end0 = (b") = " + hs[b"a.txt"].encode()) if tag else b""
+            if tag:
+                # tagged form: the hash comes last, so the "remainder" trick needs the untagged tail inside the path
+                fill = T - len(head0)
+                path = (b"./" * (fill // 2 + 1))[:fill - 5] + b"a.txt" + tail
+                line = head0 + path + end0
+                shown = path
+            else:
+                fill = T - len(head0)
+                path = (b"./" * (fill // 2 + 1))[:fill - 5] + b"a.txt" + tail
+                line = head0 + path
+                shown = path
+            body = line + b"\n"
+            out = shown + b": FAILED (File name too long (os error 36))\n"
+            cases.append(case(body, out, 1))
+    return cases
+
+
+def cases_for_c12(rng, n):
+    cases = long_line_check_cases(rng)
     for i in range(n):
         cases.append(hash_case(rng) if i % 2 == 0 else check_case(rng))
     return cases
